@@ -3,6 +3,7 @@
 package tls //nolint:revive
 
 import (
+	"context"
 	"crypto/ecdsa"
 	"crypto/elliptic"
 	"crypto/rand"
@@ -13,12 +14,18 @@ import (
 	"encoding/hex"
 	"fmt"
 	"math/big"
+	"io"
+	"log"
 	"net"
+	"net/http"
+	"os"
 	"strings"
+	"sync"
 	"testing"
 	"time"
 	"unicode"
 
+	"github.com/bluenviron/mediamtx/internal/packetdumper"
 	"github.com/bluenviron/mediamtx/internal/verifutil"
 )
 
@@ -75,44 +82,136 @@ func verifC41Init() {
 	verifC41Certs = []verifC41Cert{a, b, c, d, e}
 }
 
-func verifC41Handshake(c verifC41Cert, fp string) string {
+// one long-lived HTTPS server per (certificate, TLS version) and history: connections of one history reach the SAME
+// server (same address, same session-ticket keys), so anything the client side remembers between connections
+// (session caches, pooled state) is exercised; `reset` closes them, the next history gets fresh ticket keys.
+type verifC41Srv struct {
+	ln  net.Listener
+	srv *http.Server
+}
+
+var verifC41Quiet = log.New(io.Discard, "", 0)
+
+var (
+	verifC41Mu   sync.Mutex
+	verifC41Srvs = map[string]*verifC41Srv{}
+	verifC41Dir  string
+)
+
+func verifC41Reset() {
+	verifC41Mu.Lock()
+	defer verifC41Mu.Unlock()
+	for k, s := range verifC41Srvs {
+		s.srv.Close() //nolint:errcheck
+		delete(verifC41Srvs, k)
+	}
+}
+
+func verifC41Server(idx int, ver string) string {
+	verifC41Mu.Lock()
+	defer verifC41Mu.Unlock()
+	k := fmt.Sprintf("%d/%s", idx, ver)
+	if s, ok := verifC41Srvs[k]; ok {
+		return s.ln.Addr().String()
+	}
+	ln, err := net.Listen("tcp", "127.0.0.1:0")
+	if err != nil {
+		panic(err)
+	}
+	tc := &ctls.Config{Certificates: []ctls.Certificate{verifC41Certs[idx].cert}, NextProtos: []string{"http/1.1"}}
+	switch ver {
+	case "v12":
+		tc.MaxVersion = ctls.VersionTLS12
+	case "v13":
+		tc.MinVersion = ctls.VersionTLS13
+	}
+	srv := &http.Server{
+		Handler:   http.HandlerFunc(func(w http.ResponseWriter, _ *http.Request) { w.Write([]byte("hello")) }), //nolint:errcheck
+		TLSConfig: tc, ReadHeaderTimeout: 5 * time.Second,
+	}
+	srv.ErrorLog = verifC41Quiet
+	go srv.Serve(ctls.NewListener(ln, tc)) //nolint:errcheck
+	verifC41Srvs[k] = &verifC41Srv{ln: ln, srv: srv}
+	return ln.Addr().String()
+}
+
+func verifC41Classify(err error) string {
+	if err == nil {
+		return "ok"
+	}
+	if strings.Contains(err.Error(), "fingerprint does not match") {
+		return "reject"
+	}
+	return "reject-other " + strings.ReplaceAll(err.Error(), " ", "_")
+}
+
+// after the handshake one request is sent and the answer is read, so that post-handshake messages (TLS 1.3
+// session tickets) reach the client before the connection is closed
+func verifC41Talk(c net.Conn) error {
+	c.SetDeadline(time.Now().Add(5 * time.Second)) //nolint:errcheck
+	if hc, ok := c.(interface{ Handshake() error }); ok {
+		if err := hc.Handshake(); err != nil {
+			return err
+		}
+	}
+	if _, err := c.Write([]byte("GET / HTTP/1.0\r\n\r\n")); err != nil {
+		return err
+	}
+	b, err := io.ReadAll(c)
+	if err != nil && !strings.Contains(string(b), "hello") {
+		return err
+	}
+	if !strings.Contains(string(b), "hello") {
+		return fmt.Errorf("no answer from the server")
+	}
+	return nil
+}
+
+func verifC41Handshake(idx int, fp, mode, ver string) string {
 	conf := MakeConfig(fp)
 	if conf == nil {
 		return "nilconf"
 	}
-	conf.ServerName = "localhost"
-	ln, err0 := net.Listen("tcp", "127.0.0.1:0")
-	if err0 != nil {
-		panic(err0)
-	}
-	defer ln.Close()
-	done := make(chan struct{})
-	go func() {
-		defer close(done)
-		sc, err := ln.Accept()
+	addr := verifC41Server(idx, ver)
+	switch mode {
+	case "direct": // the way the RTSP/RTMP clients use it: tls.Client over a dialled connection
+		conf.ServerName = "localhost"
+		cc, err := net.Dial("tcp", addr)
 		if err != nil {
-			return
+			panic(err)
 		}
-		defer sc.Close()
-		s := ctls.Server(sc, &ctls.Config{Certificates: []ctls.Certificate{c.cert}})
-		s.SetDeadline(time.Now().Add(5 * time.Second)) //nolint:errcheck
-		s.Handshake()                                  //nolint:errcheck
-	}()
-	cc, err0 := net.Dial("tcp", ln.Addr().String())
-	if err0 != nil {
-		panic(err0)
-	}
-	defer func() { cc.Close(); <-done }()
-	cl := ctls.Client(cc, conf)
-	cl.SetDeadline(time.Now().Add(5 * time.Second))
-	err := cl.Handshake()
-	if err != nil {
-		if strings.Contains(err.Error(), "fingerprint does not match") {
-			return "reject"
+		defer cc.Close()
+		return verifC41Classify(verifC41Talk(ctls.Client(cc, conf)))
+	case "pd": // dumpPackets: true — packetdumper.DialTLSContext clones the config
+		if verifC41Dir == "" {
+			verifC41Dir, _ = os.MkdirTemp("", "verifc41")
 		}
-		return "reject-other " + strings.ReplaceAll(err.Error(), " ", "_")
+		d := &packetdumper.DialTLSContext{
+			DialContext: (&packetdumper.DialContext{Prefix: verifC41Dir + "/d"}).Do,
+			TLSConfig:   conf,
+		}
+		cc, err := d.Do(context.Background(), "tcp", addr)
+		if err != nil {
+			return "reject-other dial " + strings.ReplaceAll(err.Error(), " ", "_")
+		}
+		defer cc.Close()
+		return verifC41Classify(verifC41Talk(cc))
+	case "http": // the way the auth manager / WebRTC / HLS clients use it: http.Transport.TLSClientConfig
+		tr := &http.Transport{TLSClientConfig: conf}
+		defer tr.CloseIdleConnections()
+		cl := &http.Client{Transport: tr, Timeout: 5 * time.Second}
+		res, err := cl.Get("https://" + addr + "/")
+		if err != nil {
+			return verifC41Classify(err)
+		}
+		defer res.Body.Close()
+		b, _ := io.ReadAll(res.Body)
+		if string(b) != "hello" {
+			return "reject-other bad_body"
+		}
+		return "ok"
 	}
-	return "ok"
+	return "bad-op"
 }
 
 func verifC41Exec(op string) string {
@@ -128,23 +227,25 @@ func verifC41Exec(op string) string {
 			}
 		}
 		return "ok"
+	case "reset":
+		verifC41Reset()
+		return "ok"
 	case "hs":
-		idx := verifutil.Atoi(f[1])
-		c := verifC41Certs[idx%len(verifC41Certs)]
-		return verifC41Handshake(c, verifutil.UnHexS(f[3]))
+		if len(f) != 6 {
+			return "bad-op"
+		}
+		idx := verifutil.Atoi(f[1]) % len(verifC41Certs)
+		return verifC41Handshake(idx, verifutil.UnHexS(f[3]), f[4], f[5])
 	}
 	return "bad-op"
 }
 
-func verifC41Gen(r *verifutil.Rand, i int, thorough bool) []string {
-	verifC41Init()
-	if i == 0 {
-		return []string{"runes"}
-	}
-	idx := r.Intn(len(verifC41Certs))
+// one fingerprint derived from the true digest of certificate idx (shape 0 = exact, 1/2 = other letter case: accepted;
+// everything else must be refused)
+func verifC41Shape(r *verifutil.Rand, idx int, shape int) string {
 	c := verifC41Certs[idx]
 	fp := c.leaf
-	switch r.Intn(14) {
+	switch shape {
 	case 0: // exact
 	case 1:
 		fp = strings.ToUpper(fp)
@@ -205,7 +306,37 @@ func verifC41Gen(r *verifutil.Rand, i int, thorough bool) []string {
 	if fp == "" {
 		fp = "x"
 	}
-	return []string{fmt.Sprintf("hs %d %s %s", idx, verifutil.HexS(c.leaf), verifutil.HexS(fp))}
+	return fp
+}
+
+// a history = `reset` + 1..4 connections to ONE server (one certificate, one TLS version) with different pinned
+// fingerprints and different ways of dialling: what an earlier connection left behind must not decide a later one
+func verifC41Gen(r *verifutil.Rand, i int, thorough bool) []string {
+	verifC41Init()
+	if i == 0 {
+		return []string{"runes"}
+	}
+	idx := r.Intn(len(verifC41Certs))
+	c := verifC41Certs[idx]
+	ver := r.Pick("v12", "v13", "v13", "any")
+	n := 1 + r.Intn(4)
+	out := []string{"reset"}
+	good := func() int { return r.Intn(3) }
+	bad := func() int { return 3 + r.Intn(11) }
+	for k := 0; k < n; k++ {
+		var shape int
+		switch {
+		case n > 1 && k == 0 && r.Intn(3) != 0: // a matching connection first, the others must still be judged on their own
+			shape = good()
+		case r.Intn(3) == 0:
+			shape = good()
+		default:
+			shape = bad()
+		}
+		mode := r.Pick("direct", "direct", "pd", "http")
+		out = append(out, fmt.Sprintf("hs %d %s %s %s %s", idx, verifutil.HexS(c.leaf), verifutil.HexS(verifC41Shape(r, idx, shape)), mode, ver))
+	}
+	return out
 }
 
 func TestVerifC41(t *testing.T) {
@@ -213,11 +344,11 @@ func TestVerifC41(t *testing.T) {
 		ID: "C41", Exec: verifC41Exec, Gen: verifC41Gen, Quick: 600, Thorough: 20000,
 		Class: func(op, impl string) string {
 			f := strings.Fields(op)
-			if f[0] != "hs" {
+			if f[0] != "hs" || len(f) != 6 {
 				return f[0]
 			}
 			verifC41Init()
-			return verifC41Certs[verifutil.Atoi(f[1])%len(verifC41Certs)].name + "/" + strings.Fields(impl)[0]
+			return verifC41Certs[verifutil.Atoi(f[1])%len(verifC41Certs)].name + "/" + f[4] + "/" + f[5] + "/" + strings.Fields(impl)[0]
 		},
 	})
 }
